@@ -31,7 +31,7 @@ type Client interface {
 }
 
 type branch struct {
-	clients  map[Client]struct{}
+	clients  map[Client]int // number of live registrations per client
 	children map[string]*branch
 }
 
@@ -57,9 +57,16 @@ func (m *Match) AddQuery(query []string, client Client) (remove func()) {
 	defer m.mu.Unlock()
 	m.mu.Lock()
 	m.tree.addQuery(query, client)
+	removed := false
 	return func() {
 		defer m.mu.Unlock()
 		m.mu.Lock()
+		// Only the first call removes anything: a later call must not undo a
+		// registration made after it.
+		if removed {
+			return
+		}
+		removed = true
 		m.tree.removeQuery(query, client)
 	}
 }
@@ -67,9 +74,9 @@ func (m *Match) AddQuery(query []string, client Client) (remove func()) {
 func (b *branch) addQuery(query []string, client Client) {
 	if len(query) == 0 {
 		if b.clients == nil {
-			b.clients = map[Client]struct{}{}
+			b.clients = map[Client]int{}
 		}
-		b.clients[client] = struct{}{}
+		b.clients[client]++
 		return
 	}
 	if b.children == nil {
@@ -88,7 +95,11 @@ func (b *branch) removeQuery(query []string, client Client) (empty bool) {
 		empty = (len(b.clients) == 0 && len(b.children) == 0)
 	}()
 	if len(query) == 0 {
-		if b.clients != nil {
+		// A client registered more than once for this query stays registered
+		// until its last registration is removed.
+		if n := b.clients[client]; n > 1 {
+			b.clients[client] = n - 1
+		} else {
 			delete(b.clients, client)
 		}
 		return
